@@ -33,6 +33,16 @@ def main():
     sdir = os.path.join(HERE, 'seeded')
     seeds = sorted(d for d in os.listdir(sdir)
                    if os.path.exists(os.path.join(sdir, d, 'patch.diff')))
+    all_seeds = list(seeds)
+    if '--new' in sys.argv:
+        # only seeds that have no verdict yet; the others keep theirs
+        def has(d):
+            mf = os.path.join(sdir, d, 'meta.json')
+            try:
+                return bool(json.load(open(mf)).get('caught_by'))
+            except Exception:
+                return False
+        seeds = [d for d in seeds if not has(d)]
     with multiprocessing.Pool(16) as pool:
         bases = dict(zip(PROPS, pool.starmap(
             selftest._violations, [(p, REPO, None) for p in PROPS])))
@@ -54,13 +64,16 @@ def main():
             by.setdefault(sid, []).append('%s.%s' % (prop, rule))
     lines = ['# Seeded changes x checks', '',
              '| seeded change | property | reported by |', '|---|---|---|']
-    for sid in seeds:
+    for sid in all_seeds:
         mf = os.path.join(sdir, sid, 'meta.json')
         meta = json.load(open(mf)) if os.path.exists(mf) else {}
-        caught = sorted(set(by.get(sid, [])))
-        meta['caught_by'] = caught
-        with open(mf, 'w') as fh:
-            json.dump(meta, fh, indent=1)
+        if sid in seeds:
+            caught = sorted(set(by.get(sid, [])))
+            meta['caught_by'] = caught
+            with open(mf, 'w') as fh:
+                json.dump(meta, fh, indent=1)
+        else:
+            caught = meta.get('caught_by', [])
         lines.append('| %s | %s | %s |' % (
             sid, sid.split('-')[0],
             ', '.join(caught) if caught else '**missed**'))
